@@ -21,6 +21,11 @@ pub(crate) fn try_to_convert(parol_grammar: ParolGrammar) -> Result<GrammarConfi
                 }
                 acc
             });
+    // The start symbol must be defined by the grammar itself. Otherwise a helper non-terminal that
+    // is generated during the transformation could accidentally take its name.
+    if !non_terminals.contains(&st) {
+        bail!("Start symbol '{}' has no production", st);
+    }
     let pr = transform_productions(parol_grammar.productions, parol_grammar.grammar_type)?;
     let cfg = Cfg { st, pr };
     let title = parol_grammar.title;
